@@ -176,3 +176,23 @@ def respell(rnd, text):
     except Exception:
         return None
     return out
+
+
+def respace(rnd, text):
+    """The same string with blanks at the places the README writes them: after the left terminal, before the right terminal,
+    after the commas and the semicolon of a stochastic object (`{[$] [$]CC[$], [$]CO[$]; [$][H] [$]}`)."""
+    import re
+
+    def body(m):
+        b = m.group(0)
+        if rnd.random() < 0.6:
+            b = re.sub(r"^(\{\[[^\]]*\])(?=\S)", r"\1 ", b)
+        if rnd.random() < 0.6:
+            b = re.sub(r"(?<=\S)(\[[^\[\]]*\]\})$", r" \1", b)
+        if rnd.random() < 0.6:
+            b = re.sub(r",(?=\S)", ", ", b)
+        if rnd.random() < 0.6:
+            b = re.sub(r";(?=\S)", "; ", b)
+        return b
+
+    return re.sub(r"\{[^{}]*\}", body, text)
